@@ -60,3 +60,96 @@ func appendTwo(a []byte, x byte) []byte {
 	a = append(a, x+1)
 	return a
 }
+
+// ---- features added late: each has a correct function and a deliberately broken twin ----
+
+type closer interface{ Close() error }
+
+type opener struct{ c closer }
+
+func (o *opener) open() (closer, error) { return o.c, nil }
+
+// closesGood closes what it opened on every path.
+func closesGood(o *opener, fail bool) error {
+	c, err := o.open()
+	if err != nil {
+		return err
+	}
+	defer c.Close()
+	if fail {
+		return errFail
+	}
+	return nil
+}
+
+// closesBad forgets to close on the failure path.
+func closesBad(o *opener, fail bool) error {
+	c, err := o.open()
+	if err != nil {
+		return err
+	}
+	if fail {
+		return errFail
+	}
+	return c.Close()
+}
+
+var errFail = &myErr{}
+
+type myErr struct{}
+
+func (*myErr) Error() string { return "fail" }
+
+// depthGood recurses with a strictly increasing depth below a cap.
+func depthGood(d int) int {
+	if d >= 10 {
+		return 0
+	}
+	return depthGood(d+1) + 1
+}
+
+// depthBad does not advance the depth on one path.
+func depthBad(d int, flip bool) int {
+	if d >= 10 {
+		return 0
+	}
+	if flip {
+		return depthBad(d, false)
+	}
+	return depthBad(d+1, flip) + 1
+}
+
+type budget struct{ remain int }
+
+func (b *budget) charge(n int) bool {
+	if n < 0 || n > b.remain {
+		return false
+	}
+	b.remain -= n
+	return true
+}
+
+// allocGood charges what it allocates.
+func allocGood(b *budget, w, h int) []byte {
+	if w < 0 || h < 0 || w > 1000 || h > 1000 || !b.charge(w*h) {
+		return nil
+	}
+	return make([]byte, w*h)
+}
+
+// allocBad charges one row only.
+func allocBad(b *budget, w, h int) []byte {
+	if w < 0 || h < 0 || w > 1000 || h > 1000 || !b.charge(w) {
+		return nil
+	}
+	return make([]byte, w*h)
+}
+
+// partialBad: a partial contract whose loop invariant does not hold on entry.
+func partialBad(a []int) int {
+	n := 5
+	for i := range a {
+		n += a[i] & 1
+	}
+	return n
+}
